@@ -12,6 +12,7 @@ import (
 	"time"
 
 	"github.com/siderolabs/gen/optional"
+	"github.com/siderolabs/gen/xerrors"
 	"go.uber.org/zap"
 
 	"github.com/cosi-project/runtime/pkg/controller"
@@ -43,6 +44,8 @@ type tlChoice struct {
 
 type tlCase struct {
 	Sched []tlChoice `json:"sched"`
+	// the user's finalizer-removal hook per input id: 1 = fails with an error tagged SkipReconcile, 2 = fails with another error
+	Hook map[string]int `json:"hook,omitempty"`
 }
 
 func runGatedTransformList(t *testing.T, c tlCase) (coq string, flags map[string]bool, problem string) {
@@ -83,7 +86,16 @@ func runGatedTransformList(t *testing.T, c tlCase) (coq string, flags map[string
 
 				return nil
 			},
-			FinalizerRemovalFunc: func(context.Context, controller.Reader, *zap.Logger, *InRes) error { return nil },
+			FinalizerRemovalFunc: func(_ context.Context, _ controller.Reader, _ *zap.Logger, in *InRes) error {
+				switch c.Hook[in.Metadata().ID()] {
+				case 1:
+					return xerrors.NewTaggedf[transform.SkipReconcileTag]("not yet")
+				case 2:
+					return errors.New("finalizer removal failed")
+				}
+
+				return nil
+			},
 		}, transform.WithInputFinalizers())
 
 		rt, err := cruntime.NewRuntime(st, zap.NewNop())
@@ -349,7 +361,13 @@ func runGatedTransformList(t *testing.T, c tlCase) (coq string, flags map[string
 			t.Fatal(err1, err2)
 		}
 
-		var tb, mt []string
+		var tb, mt, hk []string
+
+		for _, k := range sortedKeys(c.Hook) {
+			hk = append(hk, fmt.Sprintf("(%s, %d%%N)", coqAtom(k), c.Hook[k]))
+			flags["hook_fails"] = true
+		}
+
 		for _, k := range sortedKeys(tbl) {
 			tb = append(tb, fmt.Sprintf("(%s, %s)", coqAtom(k), coqAtom(tbl[k])))
 		}
@@ -358,8 +376,8 @@ func runGatedTransformList(t *testing.T, c tlCase) (coq string, flags map[string
 			mt = append(mt, fmt.Sprintf("(%s, %s)", coqAtom(k), coqAtom(tlMap[k])))
 		}
 
-		coq = fmt.Sprintf("(%s, %s, %s, %s, %s, %s, %s, %s, %s, %s)",
-			coqAtom("n1"), coqAtom("T"), coqAtom("O"), coqAtom(tcName), coqList(mt), coqList(tb), coqList(steps), final, ins, outs)
+		coq = fmt.Sprintf("(%s, %s, %s, %s, %s, %s, %s, %s, %s, %s, %s)",
+			coqAtom("n1"), coqAtom("T"), coqAtom("O"), coqAtom(tcName), coqList(mt), coqList(hk), coqList(tb), coqList(steps), final, ins, outs)
 
 		cancel()
 
@@ -385,6 +403,10 @@ func runGatedTransformList(t *testing.T, c tlCase) (coq string, flags map[string
 
 func genGatedTransformList(r *rng) tlCase {
 	var c tlCase
+
+	if r.chance(1, 3) {
+		c.Hook = map[string]int{pick(r, []string{"a", "b", "c"}): 1 + r.intn(2)}
+	}
 
 	ins := []string{"a", "b", "c", "s"}
 	outs := []string{"g", "c"}
@@ -472,6 +494,10 @@ func tlCorpus() []tlCase {
 
 			sched = append(sched, base[pos:]...)
 			out = append(out, tlCase{Sched: sched})
+
+			if e.Kind == "none" || e.Env == "in.teardown" {
+				out = append(out, tlCase{Sched: sched, Hook: map[string]int{"a": 1}}, tlCase{Sched: sched, Hook: map[string]int{"b": 2}})
+			}
 		}
 	}
 
